@@ -12,14 +12,16 @@ RULE = ("one case = one generated grammar (unbiased / mostly non-left-recursive 
         "budget (sys.settrace); non-trivial = at least one tree and one ParsingError, or the reference test says "
         "left-recursive; distinct by protocol text")
 TRUSTED = ["re (lexemes are found by the harness with the tokenizer's own pattern)",
-           "sys.settrace line counter as the observable for non-termination (budget 300000 line events per call, inputs of at most 5 tokens: the largest count seen on the unchanged tree is ~11000)"]
+           "sys.settrace: the depth of the parse stack at every push is compared with the bound of C03.stack_bound_parse "
+           "((|tokens|+1)*(symbols+3)); a line-event budget (constructor 10^6, parse 3*10^7) is only a backstop"]
 ASSUMPTIONS = ["the equivalence 'cycle in the factorised dictionary <=> the user's grammar is left-recursive' is not a theorem; "
                "it is covered by the oracle (reference test on the user's productions) on every generated grammar"]
-BUDGET = 300000
+BUDGET = 1000000          # line events of the constructor
+PARSE_BUDGET = 30000000    # backstop only; the observable for a run-away parse is the stack bound
 
 
 def impl(case):
-    return ll.impl(case, trace_budget=BUDGET)
+    return ll.impl(case, trace_budget=BUDGET, parse_budget=PARSE_BUDGET)
 
 
 def oracle(case, replies):
@@ -38,9 +40,12 @@ def oracle(case, replies):
                 if not ref and rep == "err GrammarIsRecursive":
                     return "false-alarm: no symbol reaches itself without consuming a token, GrammarIsRecursive raised (smart=%s)" % smart
         elif op == "p" and ok:
+            if rep == "err StackBoundExceeded":
+                return ("stack-grows-without-bound: the parse stack exceeds (|tokens|+1)*(number of symbols+3) frames "
+                        "on input %r" % ll.dec_p(line))
             if rep == "err BudgetExceeded":
-                return "parse-does-not-terminate: budget of %d line events exceeded on input %r" % (BUDGET, ll.dec_p(line))
-            if rep == "skipped-after-BudgetExceeded":
+                return "parse-does-not-terminate: budget of %d line events exceeded on input %r" % (PARSE_BUDGET, ll.dec_p(line))
+            if rep == "skipped-after-overrun":
                 continue
             if not (rep.startswith("tree ") or rep == "err ParsingError"):
                 return "parse-raises: %s on input %r" % (rep[:60], ll.dec_p(line))
